@@ -62,6 +62,11 @@ def gen_params(r):
 
 def make_case(seed, i):
     r = cm.rng(seed, "c02", i)
+    if i % 10 == 7:
+        # a program of fragment 2 of the unused side (Fragment.u2_block, imports bound once): functions and lambdas, the
+        # imports `as` fresh names at top-level positions - what C02_tidy_remove_preserves_trace_stage2 is about
+        prog = c05.to_u2(r, G.gen_program(r, True, classes=False, funcs=True, comps=False))
+        return {"kind": "exec", "i": i, "prog": G.normalise(prog), "ns": [[G.REG, G.DEC]], "params": gen_params(r)}
     g = G.Gen(r, True, maxdepth=2, mods=MODS2)
     prog = []
     if r.random() < .3:
@@ -353,6 +358,23 @@ def run_tagged(src, nsnames, docs=()):
 
     lazy = []
 
+    ROOT_LOADS = ('LOAD_NAME', 'LOAD_GLOBAL', 'LOAD_FAST', 'LOAD_FAST_CHECK', 'LOAD_DEREF', 'LOAD_CLASSDEREF',
+                  'LOAD_FROM_DICT_OR_GLOBALS', 'LOAD_FROM_DICT_OR_DEREF')
+
+    def chain_root(fr):
+        """the name at the root of the attribute chain whose LOAD_ATTR is executing in frame fr (a.b.c -> 'a')"""
+        import dis
+        ins = [i for i in dis.get_instructions(fr.f_code)]
+        k = next((j for j, i in enumerate(ins) if i.offset == fr.f_lasti), None)
+        if k is None or ins[k].opname != 'LOAD_ATTR':
+            return None
+        k -= 1
+        while k >= 0 and ins[k].opname == 'LOAD_ATTR':
+            k -= 1
+        if k >= 0 and ins[k].opname in ROOT_LOADS:
+            return ins[k].argval
+        return None
+
     def user_code():
         fr = sys._getframe(2)
         return fr.f_code.co_filename == '<p>' and fr.f_code.co_code[fr.f_lasti] != IMPORT_FROM
@@ -369,8 +391,9 @@ def run_tagged(src, nsnames, docs=()):
                 raise AttributeError(n)
             if n in SUBMODS:
                 if user_code():
-                    # the submodule was not imported by anything so far: a real package would raise AttributeError
-                    lazy.append(s.__name__ + '.' + n)
+                    # the submodule was not imported by anything so far: a real package would raise AttributeError.
+                    # Recorded with the name the attribute chain is rooted at (None: not a plain name chain)
+                    lazy.append((s.__name__ + '.' + n, chain_root(sys._getframe(1))))
                 return importlib.import_module(s.__name__ + '.' + n)
             return V(s.__name__ + ':' + n)
         def __call__(s, *a, **k):
@@ -505,7 +528,7 @@ def run_tagged(src, nsnames, docs=()):
         except Exception:
             doc = None
         return {"unbound": sorted(set(g.failed)), "final": fin, "log": [list(x) for x in log[:4000]], "doc": doc, "exc": exc,
-                "lazy": sorted(set(lazy))}
+                "lazy": sorted(set(lazy), key=repr)}
     finally:
         sys.meta_path.remove(finder)
         for k in set(sys.modules) - saved:
@@ -828,7 +851,106 @@ def plain_paths(prog):
     return acc
 
 
-def compare_runs(kind, base, got, rem, plain=()):
+def otherwise_bound(prog):
+    """names bound somewhere in the program by anything but a plain `import name[.sub...]`: aliased and from-imports,
+    assignments, loop / with / except targets, def and class names, parameters, lambda parameters, comprehension targets"""
+    acc = set()
+
+    def tn(t):
+        if t[0] == "n":
+            acc.add(t[1])
+        elif t[0] == "t":
+            for y in t[1]:
+                tn(y)
+
+    def ex(e):
+        if e is None:
+            return
+        t = e[0]
+        if t == "op":
+            for x in e[2]:
+                ex(x)
+        elif t == "attr":
+            ex(e[1])
+        elif t == "lambda":
+            acc.update(e[1])
+            for x in e[2]:
+                ex(x)
+            ex(e[3])
+        elif t == "comp":
+            for it, tg, ifs in e[2]:
+                ex(it)
+                tn(tg)
+                for x in ifs:
+                    ex(x)
+            for x in e[3]:
+                ex(x)
+
+    def st(x, path):
+        t = x[0]
+        if t == "import":
+            for d, a in x[1]:
+                if a is not None:
+                    acc.add(a)
+        elif t == "from":
+            for n, a in x[2]:
+                acc.add(a or n)
+        elif t == "assign":
+            for y in x[1]:
+                tn(y)
+            ex(x[2])
+        elif t == "aug":
+            if not x[2]:
+                acc.add(x[1])
+            ex(x[3])
+        elif t == "expr":
+            ex(x[1])
+        elif t == "def":
+            acc.add(x[1])
+            for d in x[2]:
+                ex(d)
+            P = x[3]
+            for k in ("posonly", "args", "kwonly"):
+                for n, a in P[k]:
+                    acc.add(n)
+                    ex(a)
+            for k in ("vararg", "kwarg"):
+                if P[k] is not None:
+                    acc.add(P[k][0])
+                    ex(P[k][1])
+            for d in P["defaults"]:
+                ex(d)
+            for d in P["kw_defaults"]:
+                ex(d)
+            ex(x[4])
+        elif t == "class":
+            acc.add(x[1])
+            for y in x[2] + x[3] + x[4]:
+                ex(y)
+        elif t == "for":
+            tn(x[1])
+            ex(x[2])
+        elif t in ("while", "if"):
+            ex(x[1])
+        elif t == "with":
+            for e, tg in x[1]:
+                ex(e)
+                if tg is not None:
+                    tn(tg)
+        elif t == "try":
+            for ty, nm, hb in x[2]:
+                ex(ty)
+                if nm:
+                    acc.add(nm)
+        elif t == "doc":
+            for y in x[1]:
+                if y[0] != "bad":
+                    st(y, path)
+    c05.walk(prog, st)
+    return acc
+
+
+def compare_runs(kind, base, got, rem, plain=(), other_bound=(), ood=None):
     """None when the rewritten module behaves as the original; otherwise what differs"""
     if base["exc"] is not None:
         return None                                   # the original does not run to the end: nothing is claimed
@@ -836,9 +958,23 @@ def compare_runs(kind, base, got, rem, plain=()):
         return {"rewritten raises": got["exc"]}
     # a submodule reached through its package although nothing imported it: AttributeError in a real package.  Claimed
     # only where the original had a plain `import pkg.sub` providing it (DESIGN: the only way programs reach pkg.sub)
-    newlazy = sorted(x for x in set(got.get("lazy", [])) - set(base.get("lazy", [])) if x in plain)
+    # AND the fetch goes through the name bound by that plain import: the attribute chain is rooted at the package's own
+    # name and nothing else in the program binds that name.  Reaching pkg.sub through another binding of the package
+    # (`import pkg as c`, `from top import pkg as c`, `c = pkg`) relies on the loading side effect of an import whose
+    # bound name is not read: outside the property's domain - noted in [ood], not claimed.
+    base_paths = set(x[0] for x in base.get("lazy", []))
+    newlazy, skipped = [], []
+    for path, root in sorted(set(map(tuple, got.get("lazy", []))), key=repr):
+        if path in base_paths or path not in plain:
+            continue
+        if root == path.split(".")[0] and root not in other_bound:
+            newlazy.append(path)
+        else:
+            skipped.append(path)
+    if skipped and ood is not None:
+        ood.append("submodule reached through another binding of its package")
     if newlazy:
-        return {"submodule no longer imported": newlazy}
+        return {"submodule no longer imported": sorted(set(newlazy))}
     new_unbound = sorted(set(got["unbound"]) - set(base["unbound"]))
     if new_unbound:
         return {"new unbound globals": new_unbound}
@@ -867,6 +1003,14 @@ def run_cases(ctx, cases):
     # phase 1: Finder on the original program
     exprs = [c05.model_expr(c, p[1], p[2]) for c, p in zip(cases, prepared)]
     model = cm.coq_eval_json(c05.REQ, exprs, shard=60)
+    # which unused-side fragment each program is in (C02_unused_sound_partial / _stage2, and with them the end-to-end
+    # theorems C02_tidy_remove_preserves_trace_stage1 / _stage2), and the proved statement evaluated on it
+    for c, p, mo in zip(cases, prepared, model):
+        us = mo.get("ustage", 0) if mo.get("star_free", True) else 0
+        ctx.bump("ufragment:stage%d" % us if us else "ufragment:outside")
+        if us >= 1 and not mo.get("unused_ok", True):
+            ctx.disagreement("statement check: stage-%d unused_sound is false on this program" % us,
+                             {"src": p[0], "ns": c["ns"], "prog": c["prog"], "kind": "free"}, None, None)
     # phase 2: the reformatted module as a term (closed mode), Finder on it
     ref_cases, ref_idx = [], []
     for k, (c, p, im) in enumerate(zip(cases, prepared, impl)):
@@ -967,7 +1111,10 @@ def check_case(ctx, case, src, ids, im, mo, blocks, have_ref):
         if key not in im["run"]:
             continue
         rem = removed_names(im["blocks"], im[key]["blocks"])
-        diff = compare_runs(key, base, im["run"][key], rem, plain_paths(case["prog"]))
+        ood = []
+        diff = compare_runs(key, base, im["run"][key], rem, plain_paths(case["prog"]), otherwise_bound(case["prog"]), ood)
+        for why in ood:
+            ctx.bump("out_of_domain:" + why)
         if diff is not None:
             fid = fid or classify(case)
             if "docstring" in diff and docstring_promotion(case["prog"]):
@@ -1000,7 +1147,7 @@ def run_witnesses(ctx):
         ctx.bump("witness_replayed")
         key = pw["tool"]
         rem = removed_names(im["blocks"], im[key]["blocks"])
-        diff = compare_runs(key, im["run"]["orig"], im["run"][key], rem, plain_paths(c["prog"]))
+        diff = compare_runs(key, im["run"]["orig"], im["run"][key], rem, plain_paths(c["prog"]), otherwise_bound(c["prog"]))
         if diff is not None:
             ctx.known_hit(fid, "%s changes behaviour (%s); witness %r: %s" % (key, KNOWN_WHAT.get(fid, fid), pw["src"], json.dumps(diff)[:160]))
         else:
@@ -1015,9 +1162,14 @@ def run(ctx):
         "executable programs from one seeded PRNG: 1-3 segments of a top-level import block (1-4 statements: plain / dotted / "
         "aliased / from imports over a 10-name pool, so names collide) followed by statements of the C05 executed stream "
         "(defs, lambdas, classes, comprehensions, loops; every function runs after the module) and attribute reads; "
+        "1 program in 10 is instead generated inside fragment 2 of the unused side (functions and lambdas, imports `as` fresh "
+        "names at top-level positions); the counters ufragment:stage1 / ufragment:stage2 / ufragment:outside are the MEASURED "
+        "number of programs inside Fragment.u1_block / u2_block+imports_once / neither - only those inside are covered by "
+        "C02_unused_sound_* and the end-to-end theorems, and each of them is also checked against the statement by vm_compute; "
         "non-trivial = an import is reported unused or a block holds more than one import; distinct by hash of the source")
     ctx.assumptions += [
         "the tracing import universe (every import succeeds, from a import b and import a.b as b yield the same object) stands for the real one",
+        "'submodule no longer imported' is claimed only for an attribute chain rooted at the package's own name (the root binding of a plain `import pkg.sub` of the original, that name bound by nothing else); a submodule reached through another binding of the package (alias, from-import, re-assignment) relies on the loading side effect of an import whose bound name is unread - out of domain, counted as out_of_domain:*",
         "behaviour = unbound globals, the log of operations on provenance-tagged values, final globals by tag, docstring, exception",
         "tidy correspondence is closed only when re-rendering the spliced term reproduces pyflyby's reformatted text exactly (counted)",
     ]
